@@ -237,6 +237,20 @@ def step (d : DSt) (line : String) : DSt × String :=
         | some (false, false) =>
           (d, s!"KNOWN[C27-barrier-overtakes-data] restore + replay loses or duplicates events of an inconsistent cut; {show1}")
         | _ => (d, s!"JUDGE restore + replay differs from the uninterrupted run; {show1}")
+    | ["end"] =>
+      -- the scenario ran until nothing could move: a started checkpoint has completed unless one of
+      -- its barriers did not fit into a full inbox
+      let m := match d.st.pending with
+        | none => "complete"
+        | some p =>
+          if d.st.log.any (fun o => match o with | .injected k _ false => k == p.id | _ => false) then "incomplete"
+          else if p.toInject.isEmpty then "incomplete-although-every-barrier-was-delivered"
+          else s!"incomplete-barrier-never-injected-into-{p.toInject}"
+      (d, if d.broken then "SKIP" else diffOr m impl)
+    | "snap" :: _ => notModel "no snapshot expected here"
+    | "ack" :: _ => notModel "no ack expected here"
+    | "complete" :: _ => notModel "checkpoint not complete in the model"
+    | "unknown" :: _ => notModel "unknown record"
     | _ => (d, "BADLINE")
 
 --! vmodel: ctx => Varpulis.Driver.CtxD.driver
